@@ -43,6 +43,9 @@ pub enum Chunks {
     Boundary,
     /// whole stream in one read, or byte by byte
     WholeOrBytes,
+    /// as much as the connection will take (fills the receive buffer to its last byte); with
+    /// `true` also exactly up to the next frame boundary
+    Fill(bool),
 }
 
 #[derive(Clone, Debug)]
@@ -65,6 +68,13 @@ pub struct Instance {
     pub cancel_budget: u8,
     /// async only: how many 30 s clock steps the environment may take per session
     pub tick_budget: u8,
+    /// how many storms (300 not-ready answers in a row) the environment may raise per session
+    pub storm_budget: u8,
+    /// handshake(isi) is performed (and its bytes accepted and set aside) before the program starts
+    pub handshake: Option<insim::insim::Isi>,
+    /// Ops programs: the caller may also drop a pending write() future (the packet being written is
+    /// then torn by the caller's own doing; keep-alive replies must stay whole and single all the same)
+    pub cancel_writes: bool,
     /// compare with the other implementation on histories both can execute
     pub differential: bool,
 }
@@ -89,6 +99,9 @@ impl Instance {
             pending_budget: 0,
             cancel_budget: 0,
             tick_budget: 0,
+            storm_budget: 0,
+            handshake: None,
+            cancel_writes: false,
             differential: false,
         }
     }
@@ -143,11 +156,15 @@ fn ticks(hist: &[Act]) -> (u8, u8) {
     for a in hist.iter().rev() {
         match a {
             Act::Tick => streak += 1,
-            Act::ReadPending | Act::WritePending => {},
+            Act::ReadPending | Act::WritePending | Act::ReadStorm | Act::WriteStorm => {},
             _ => break,
         }
     }
     (total, streak)
+}
+
+fn storms(hist: &[Act]) -> u8 {
+    hist.iter().filter(|a| matches!(a, Act::ReadStorm | Act::WriteStorm)).count() as u8
 }
 
 fn spend(hist: &[Act]) -> (u8, u8, u8, bool) {
@@ -195,6 +212,19 @@ fn enabled(inst: &Instance, hist: &[Act], r: &RunResult) -> Vec<Act> {
                     Chunks::WholeOrBytes => {
                         ks.push(1);
                         ks.push(remaining);
+                    },
+                    Chunks::Fill(step) => {
+                        ks.push(remaining);
+                        if step {
+                            let mut acc = 0usize;
+                            for f in inst.frames.iter() {
+                                acc += f.len();
+                                if acc > r.pos {
+                                    ks.push(acc - r.pos);
+                                    break;
+                                }
+                            }
+                        }
                     },
                     Chunks::Boundary => {
                         // distance to the next frame boundary in the inbound stream
@@ -250,6 +280,9 @@ fn enabled(inst: &Instance, hist: &[Act], r: &RunResult) -> Vec<Act> {
             if is_async && pend < inst.pending_budget {
                 out.push(Act::ReadPending);
             }
+            if is_async && storms(hist) < inst.storm_budget {
+                out.push(Act::ReadStorm);
+            }
             if is_async && canc < inst.cancel_budget {
                 out.push(Act::Cancel);
             }
@@ -265,12 +298,15 @@ fn enabled(inst: &Instance, hist: &[Act], r: &RunResult) -> Vec<Act> {
             ks.sort();
             ks.dedup();
             out.extend(ks.into_iter().map(Act::Accept));
+            if storms(hist) < inst.storm_budget {
+                out.push(Act::WriteStorm);
+            }
             if pend < inst.pending_budget {
                 out.push(Act::WritePending);
             }
             // only a pending READ is dropped by the caller (the property is about reads; a write
             // that is abandoned half way is the caller's own doing)
-            if is_async && canc < inst.cancel_budget && r.suspended_in_read {
+            if is_async && canc < inst.cancel_budget && (r.suspended_in_read || inst.cancel_writes) {
                 out.push(Act::Cancel);
             }
         },
@@ -304,7 +340,7 @@ fn canon_of(hist: &[Act], r: &RunResult, bad: bool) -> (u64, u64) {
     bytes.extend_from_slice(&[fails, pend, canc, eof as u8, r.finished as u8]);
     bytes.extend_from_slice(&(r.calls_started as u32).to_le_bytes());
     let (tk, streak) = ticks(hist);
-    bytes.extend_from_slice(&[tk, streak]);
+    bytes.extend_from_slice(&[tk, streak, storms(hist)]);
     bytes.extend_from_slice(&r.ticks_in_call.to_le_bytes());
     bytes.extend_from_slice(&(r.results.len() as u32).to_le_bytes());
     bytes.extend_from_slice(&(r.unanswered.map(|x| x as u32 + 1).unwrap_or(0)).to_le_bytes());
